@@ -35,6 +35,29 @@ def au_norm(s):
     return tuple(f[:3])
 
 
+def rs_op_text(o):
+    k = "".join(ch for ch in o[:3] if ch.isdigit())
+    rest = o[len(k):]
+    if rest[0] == "r":
+        return "reader %s: Read(buffer of %s bytes)" % (k, rest[1:])
+    w, off = rest[1:].split(":")
+    return "reader %s: Seek(%s, %s)" % (k, off, {"0": "io.SeekStart", "1": "io.SeekCurrent", "2": "io.SeekEnd"}.get(w, "whence " + w))
+
+
+def rs_ans_text(a):
+    if a == "P":
+        return "PANIC inside the reader"
+    if a == "x":
+        return "an error"
+    if a[0] == "a":
+        return "position " + a[1:]
+    if a[0] == "d":
+        h, e = a[1:].rsplit(":", 1)
+        n = 0 if h == "-" else len(h) // 2
+        return "%d byte(s)%s, %s" % (n, "" if n == 0 or n > 16 else " " + h, {"e": "io.EOF", "n": "nil", "x": "another error"}.get(e, e))
+    return a
+
+
 def run(ctx):
     ctx.assumptions += [
         "encoding/json, mime/multipart, net/http (MaxBytesReader, MultipartReader), net/url, gorilla/websocket are library code: they enter the model as outcome classes (decode ok / null / error, MIME fault per part, byte offsets) computed by the harness with the same libraries",
@@ -50,8 +73,12 @@ def run(ctx):
     ctx.assumptions += [
         "request histories: the library's verdict on a query string (gqlparser parser with the configured token limit, validator) and mapstructure's verdict on a persistedQuery extension enter the model `ReqHist` as classes computed by the harness with the same libraries; what reached CreateOperationContext is read off by a passive OperationParameterMutator installed first; the LRU is modelled (most recent first, eviction beyond the capacity) but the APQ store without eviction (histories stay below its 100 entries)",
     ]
-    ok_extract = ctx.extract("AddUploadGuards", "DecodeSites", "WsCloseReasons", "ParseGate")
-    proved = bool(ok_extract) and ctx.prove(props=["GqlgenVerif.Props.C10", "GqlgenVerif.Props.C10Close", "GqlgenVerif.Props.C10Hist"])
+    ctx.assumptions += [
+        "what user code does with an upload's reader: os.File (the reader of a spilled upload) and bytes.Reader are library code; the Spec `ReadSeeker.stepSpec` is their semantics written down (file: a read into an empty buffer never reports EOF), tied on every run by replaying every script on a real bytes.Reader (oracle column) and on the real *os.File readers; int64 extremes and the Linux-only whence values 3/4 are sent to the in-memory reader only (what a file descriptor makes of them depends on the file system); the nil-slice guard of bytesReader is not modelled (the one construction site passes &fileBytes, checked by the extractor)",
+        "server-initiated websocket closes: goroutines are modelled as threads performing writes through the regenerated write sites, c.mu as a mutex, gorilla's single-writer rule as 'never two threads inside a write' (Model/WsWriteLock); the lock state around each write is followed syntactically by go/extract/wswritelock.go (trusted); tied by the `wc` sessions (every close reason x 1-8 streaming subscriptions x frame sizes), which are scheduler-dependent: a lost race is not reproducible from the seed alone",
+    ]
+    ok_extract = ctx.extract("AddUploadGuards", "DecodeSites", "WsCloseReasons", "ParseGate", "ReaderFacts", "WsWriteLock")
+    proved = bool(ok_extract) and ctx.prove(props=["GqlgenVerif.Props.C10", "GqlgenVerif.Props.C10Close", "GqlgenVerif.Props.C10Hist", "GqlgenVerif.Props.C10Reader", "GqlgenVerif.Props.C10Lock"])
     if ok_extract and not proved:
         ctx.cov["proof_failure"] = ctx.proof_failure
 
@@ -81,6 +108,16 @@ def run(ctx):
         try:
             outl = ctx.driver("c10", ["wlspec %s %s %s" % (rows[i][1].split(" ")[2], obs_of(rows[i]), rows[i][4]) for i in wl_rows])
             wl_spec = dict(zip(wl_rows, outl))
+        except Exception as ex:
+            ctx.cov["driver_failure"] = str(ex)[-1500:]
+
+    # is the close the client got one of the regenerated close sites of run / closeOnCancel?
+    wc_site = {}
+    if model is not None:
+        wc_rows = [i for i, r in enumerate(rows) if r[0] == "wc" and r[2].startswith("close:")]
+        try:
+            outl = ctx.driver("c10", ["wcsite %s %s" % (rows[i][2][6:], rows[i][3]) for i in wc_rows])
+            wc_site = dict(zip(wc_rows, outl))
         except Exception as ex:
             ctx.cov["driver_failure"] = str(ex)[-1500:]
 
@@ -273,6 +310,68 @@ def run(ctx):
                     div.append((r, m, "wl"))
             for w in why:
                 spec_fail.append((r, w))
+        elif k == "rs":
+            enc, obs_s, orc, status, cls, rec, tmp_after, during, ukinds, want, pan, desc = r[1:13]
+            readers, script = enc.split(" ")
+            ops = script.split(",")
+            obs = [] if obs_s == "-" else obs_s.split(",")
+            kv = dict(x.split("=", 1) for x in m.split(" ")) if m is not None and m.startswith("impl=") else None
+            rkinds = [x.split(":")[0] for x in readers.split(";")]
+            spec = kv["spec"].split(",") if kv else (orc.split(",") if not any(k2 == "f" and "r0" in o for o in ops for k2 in rkinds) else None)
+            for o in ops:
+                kk = "".join(ch for ch in o[:3] if ch.isdigit())
+                branch["rs:%s:%s" % (rkinds[int(kk)] if int(kk) < len(rkinds) else "?", "read" if o[len(kk)] == "r" else "seek" + o[len(kk) + 1:].split(":")[0])] += 1
+            for a in obs:
+                branch["rs:answer:" + (a[0] + (a[-2:] if a[0] == "d" else ""))] += 1
+            nontriv.add(enc)
+            why = []
+            if rec != "0":
+                why.append("recover hook called %s time(s) although user code did not panic (it only used the upload's io.ReadSeeker): %s" % (rec, unhex(pan)))
+            if cls != "exec" or status != "200":
+                why.append("a well-formed upload whose resolver only reads and seeks its files was answered %s %s" % (status, cls))
+            if tmp_after != "0":
+                why.append("%s entries left in the private TMPDIR after the request" % tmp_after)
+            if ukinds != want and ukinds != "-":
+                why.append("the uploads did not reach user code with their name / content type / size / reader kind: got %s, sent %s" % (ukinds, want))
+            if spec is not None and obs != spec:
+                j = next((x for x in range(min(len(obs), len(spec))) if obs[x] != spec[x]), min(len(obs), len(spec)))
+                why.append("operation %d of the script (%s) was answered %s; an io.ReadSeeker over the file's bytes (bytes.Reader / os.File) answers %s" % (
+                    j + 1, rs_op_text(ops[j]) if j < len(ops) else "-", rs_ans_text(obs[j]) if j < len(obs) else "nothing (user code was unwound)", rs_ans_text(spec[j]) if j < len(spec) else "-"))
+            for w in why:
+                spec_fail.append((r, w))
+            if kv is not None:
+                if obs != kv["impl"].split(","):
+                    div.append((r, m, "rs: the reader does not answer the script as the model of reader.go (regenerated facts) does"))
+                if orc != kv["mem"]:
+                    div.append((r, m, "rs: bytes.Reader (library oracle) does not answer the script as the Spec `stepSpec .mem` does"))
+                if kv.get("perPath") != "true":
+                    div.append((r, m, "rs: the reader is not constructed once per mapped path"))
+            elif m is not None:
+                div.append((r, m, "rs: model could not run the case"))
+        elif k == "wc":
+            pc, closed, reason, conn_err, bad, rec, started, leaked, pan, desc = r[1:11]
+            proto, trig, nsub, size, delay = pc.split(" ")
+            branch["wc:%s:%s:%s" % (proto, trig, closed)] += 1
+            nontriv.add(pc)
+            why = []
+            if rec != "0":
+                why.append("recover hook called %s time(s) although no user code panicked: %s" % (rec, unhex(pan)))
+            if not closed.startswith("close:") or closed == "close:1006":
+                why.append("the server closed the connection without a protocol close reaching the client (%s%s)" % (closed, " " + unhex(reason) if reason != "-" else ""))
+            elif trig == "dup" and closed != "close:4409":
+                why.append("a second subscribe under an active id was answered %s instead of the protocol close 4409" % closed)
+            elif closed not in ("close:1000", "close:1002", "close:4409"):
+                why.append("close code %s is none the transport has" % closed)
+            if bad != "0":
+                why.append("%s frame(s) that are not a JSON object with a type" % bad)
+            if leaked != "0":
+                why.append("%s of %s streaming operations were never cancelled after the connection ended" % (leaked, started))
+            for w in why:
+                spec_fail.append((r, w))
+            if m is not None and closed.startswith("close:") and closed != "close:1006" and trig != "bye" and wc_site.get(i, "none") == "none":
+                div.append((r, "none", "wc: the close frame (code, reason) is none of the regenerated close sites of run / closeOnCancel"))
+        elif k == "xc":
+            spec_fail.append((r, "the harness process running the websocket sessions (mode %s) died during this session: a panic outside every recover - %s" % (r[1], unhex(r[4]).split("\n")[0][:200])))
         elif k == "hs":
             minp, obs_s, desc, cfg, detail, pan = r[1:7]
             obs = [o.split(":") for o in obs_s.split(";")]
@@ -359,6 +458,35 @@ def run(ctx):
                     "input": {"subprotocol": proto, "scenario": scen, "steps": steps, "S_len": len(sid), "S_hex": hs[:600], "S": sid.decode("utf-8", "replace")[:200], "desc": r[7]},
                     "observed": {"frames": r[2][:600], "closed": r[3], "close_reason": unhex(r[4])[:200], "recovers": r[5], "panic": unhex(r[6])},
                     "replay": "websocket %s: %s with S = %d bytes (%s) -> %s, frames %s" % (proto, steps, len(sid), r[7], r[3], r[2][:200])}
+        if k == "rs":
+            readers, script = r[1].split(" ")
+            rl = []
+            for j, x in enumerate(readers.split(";")):
+                kd, h = x.split(":")
+                rl.append("reader %d: %s, file of %d bytes" % (j, "in-memory (request below MaxMemory)" if kd == "m" else "temp file (request above MaxMemory)", 0 if h == "-" else len(h) // 2))
+            ops = script.split(",")
+            obs = [] if r[2] == "-" else r[2].split(",")
+            steps = ["%s -> %s" % (rs_op_text(o), rs_ans_text(obs[j]) if j < len(obs) else "not reached") for j, o in enumerate(ops)]
+            return {"shape": {"site": "upload-reader", "class": r[5]},
+                    "input": {"request": "multipart upload, " + r[12], "readers": rl, "readers_hex": readers[:600], "script": script, "steps": steps},
+                    "observed": {"answers": r[2][:1500], "bytes.Reader": r[3][:1500], "status": r[4], "class": r[5], "recovers": r[6], "tmp_after": r[7], "uploads": r[9], "panic": unhex(r[11])[:600]},
+                    "replay": "multipart upload (%s; %s); the resolver runs: %s ; response %s %s, recover hook %s time(s)%s" % (
+                        r[12], "; ".join(rl), " ; ".join(steps)[:900], r[4], r[5], r[6], (" : " + unhex(r[11])[:200]) if r[11] != "-" else "")}
+        if k == "wc":
+            proto, trig, nsub, size, delay = r[1].split(" ")
+            what = {"dup": "a second subscribe under the active id 0", "terminate": '{"type":"connection_terminate"}', "ack": '{"type":"connection_ack"} (a server->client type)',
+                    "unknown": '{"type":"bogus","id":"0"}', "badjson": 'the text frame {"type":', "binary": "a binary frame ff 00 7b",
+                    "cancel": "nothing more; the server cancels the connection context (InitFunc)", "cancelwhy": "nothing more; the server cancels the connection context (InitFunc, AppendCloseReason)",
+                    "pong": "nothing more; PingPongInterval 25ms elapses without a pong", "bye": "a close frame 1000"}.get(trig, trig)
+            steps = "connection_init; %s x subscribe `subscription StreamK%s { name }` (endless events of %s bytes), wait until each has delivered; then the client sends %s; it starts draining %s ms later" % (nsub, size, size, what, delay)
+            return {"shape": {"site": "websocket-close", "trigger": trig},
+                    "input": {"subprotocol": proto, "trigger": trig, "subscriptions": nsub, "frame_bytes": size, "drain_delay_ms": delay, "steps": steps, "desc": r[10]},
+                    "observed": {"closed": r[2], "close_reason": unhex(r[3])[:200], "connection_error": unhex(r[4])[:200], "bad_frames": r[5], "recovers": r[6], "started": r[7], "not_cancelled": r[8], "panic": unhex(r[9])[:600]},
+                    "replay": "websocket %s: %s -> %s %s, recover hook %s time(s)%s (scheduler-dependent: repeat the session)" % (proto, steps, r[2], unhex(r[3])[:80], r[6], (" : " + unhex(r[9])[:200]) if r[9] != "-" else "")}
+        if k == "xc":
+            return {"shape": {"site": "websocket-close" if r[1] == "wc" else "websocket", "class": "crash"},
+                    "input": {"mode": r[1], "session": unhex(r[2])[:600]}, "observed": {"exit": unhex(r[3]), "stderr": unhex(r[4])[:1500]},
+                    "replay": "go/harness/c10 -mode %s died while running the session `%s`: %s (scheduler-dependent: repeat the session)" % (r[1], unhex(r[2])[:400], unhex(r[4]).split("\n")[0][:300])}
         if k == "hs":
             cfg = r[4]
             obs = r[2].split(";")
@@ -385,7 +513,7 @@ def run(ctx):
 
     reported = Counter()
     for r, w in spec_fail:
-        key = (r[0], r[1].split(" ")[0] if r[0] in ("tr", "ws", "wl") else "", w[:40] if r[0] != "hs" else w.split("): ", 1)[-1][:40])
+        key = (r[0], r[1].split(" ")[0] if r[0] in ("tr", "ws", "wl", "wc") else "", w[:40] if r[0] != "hs" else w.split("): ", 1)[-1][:40])
         reported[key] += 1
         if reported[key] > 2:
             continue
@@ -408,7 +536,7 @@ def run(ctx):
     if ok_extract and not proved:
         if not spec_fail:
             ctx.violation({"kind": "proof", "failing": ctx.proof_failure,
-                           "replay": "theorems of GqlgenVerif.Props.C10 / C10Close / C10Hist no longer check against the regenerated Gen/AddUploadGuards.lean / Gen/DecodeSites.lean / Gen/WsCloseReasons.lean / Gen/ParseGate.lean; the directed and seeded search found no failing input"},
+                           "replay": "theorems of GqlgenVerif.Props.C10 / C10Close / C10Hist / C10Reader / C10Lock no longer check against the regenerated Gen/AddUploadGuards.lean / Gen/DecodeSites.lean / Gen/WsCloseReasons.lean / Gen/ParseGate.lean / Gen/ReaderFacts.lean / Gen/WsWriteLock.lean; the directed and seeded search found no failing input"},
                           no_failing_input=True)
     if ok_extract and proved and model is None:
         ctx.violation({"kind": "check-error", "what": "lean driver failed", "detail": ctx.cov.get("driver_failure")}, no_failing_input=True)
@@ -422,7 +550,7 @@ def run(ctx):
     ctx.cov.update({
         "evaluations": len(rows),
         "distinct_nontrivial": len(nontriv),
-        "rule": "au: variable trees (depth<=3) x 1-3 map paths, mostly an existing position then structurally mutated (wrong container kind, out-of-range/negative/huge index, sign and zero spellings, missing variables, dropped prefix) + 60 directed; mp: multipart requests from random trees with prefix-independent paths, mutated (paths, part order/names/duplicates, operations/map JSON shapes, MIME truncation at every 5th offset), MaxUploadSize swept over every byte offset of a body x declared/chunked x MaxMemory in {default,1,-5}, missing TMPDIR; tr: 7 HTTP transports x (valid + directed + mutated + random byte bodies); ws: 2 subprotocols x every message type x 16 payloads, id shapes, raw text/binary frames before and after init; wl: 2 subprotocols x multi-step sequences (duplicate id on an active subscription, query/stop/reuse, unknown field, ping payload, message type) x client string S of every boundary length (0..2, 88..100, 107..109, 120..130, 200..70000 bytes), a 2/3/4-byte rune at every alignment around reason bytes 121..127, multi-byte-only strings, invalid UTF-8, random rune mixtures + corpus/C10/wl.txt; cf: gorilla's control-frame rule for reasons of 0..200 bytes; hs: request HISTORIES on ONE server configured like production (LRU query cache of 1/2/3/1000 entries or MapCache, APQ, introspection, complexity limit none/100/2, parser token limit none/12; all 7 HTTP transports + both websocket subprotocols) next to a twin without query cache: every raw body of the tr alphabet and every websocket payload three times in a row; 7 valid + 45 unparsable / operation-less / schema-invalid documents x every transport three times in a row (with and without complexity limit, MapCache), first over POST then over the other transport and back, with other documents in between under capacity 1 and 2 (eviction); per document the APQ sequence hash-only / register / hash-only x2 / plain / wrong hash / hash-only / register on 5 transports; 14 shapes of the persistedQuery extension twice; the same upload three times interleaved with a bad map path; over-long documents under a token limit; generated: 2-5 distinct requests (documents, mutated documents, mutated raw bodies, APQ variants, the same document over two transports) sent 4-15 times in random order under a random configuration + corpus/C10/hs.txt. Non-trivial = distinct case leaving the happy path (error/close outcome, several paths, spill, null/err envelope)",
+        "rule": "au: variable trees (depth<=3) x 1-3 map paths, mostly an existing position then structurally mutated (wrong container kind, out-of-range/negative/huge index, sign and zero spellings, missing variables, dropped prefix) + 60 directed; mp: multipart requests from random trees with prefix-independent paths, mutated (paths, part order/names/duplicates, operations/map JSON shapes, MIME truncation at every 5th offset), MaxUploadSize swept over every byte offset of a body x declared/chunked x MaxMemory in {default,1,-5}, missing TMPDIR; tr: 7 HTTP transports x (valid + directed + mutated + random byte bodies); ws: 2 subprotocols x every message type x 16 payloads, id shapes, raw text/binary frames before and after init; wl: 2 subprotocols x multi-step sequences (duplicate id on an active subscription, query/stop/reuse, unknown field, ping payload, message type) x client string S of every boundary length (0..2, 88..100, 107..109, 120..130, 200..70000 bytes), a 2/3/4-byte rune at every alignment around reason bytes 121..127, multi-byte-only strings, invalid UTF-8, random rune mixtures + corpus/C10/wl.txt; cf: gorilla's control-frame rule for reasons of 0..200 bytes; hs: request HISTORIES on ONE server configured like production (LRU query cache of 1/2/3/1000 entries or MapCache, APQ, introspection, complexity limit none/100/2, parser token limit none/12; all 7 HTTP transports + both websocket subprotocols) next to a twin without query cache: every raw body of the tr alphabet and every websocket payload three times in a row; 7 valid + 45 unparsable / operation-less / schema-invalid documents x every transport three times in a row (with and without complexity limit, MapCache), first over POST then over the other transport and back, with other documents in between under capacity 1 and 2 (eviction); per document the APQ sequence hash-only / register / hash-only x2 / plain / wrong hash / hash-only / register on 5 transports; 14 shapes of the persistedQuery extension twice; the same upload three times interleaved with a bad map path; over-long documents under a token limit; generated: 2-5 distinct requests (documents, mutated documents, mutated raw bodies, APQ variants, the same document over two transports) sent 4-15 times in random order under a random configuration + corpus/C10/hs.txt; rs: well-formed uploads (1-2 files of 0..5000 bytes, each mapped to 1-3 variable paths; in-memory reader, temp-file reader, chunked) x a SCRIPT user code runs on the readers: systematic sweep file length {0,1,3,10} x current position {start, inside, end, behind the end} x whence {start,current,end} x target {before the start, 0, inside, last byte, exactly the end, end+1, end+6} followed by two reads, a tell, a zero-length read, a rewind and a read past the end; one file on three paths + a second file positioned differently and read interleaved; generated scripts of 4-16 operations (buffer sizes 0,1,2,3,len-1,len,len+1,2len+1,512,4096; offsets around 0 / len / int64 extremes; whence 0,1,2 and invalid ones) + corpus/C10/rs.txt; wc: server-initiated websocket closes (second subscribe under an active id, connection_terminate, server->client type, unknown type, non-JSON text frame, binary frame, cancelled connection context with and without close reason, missed pong, client close) x 2 subprotocols x 1-8 streaming subscriptions with frames of 16 B..48 KB x client drain delay. Non-trivial = distinct case leaving the happy path (error/close outcome, several paths, spill, null/err envelope)",
         "input_distribution": dict(branch),
         "kinds": dict(kinds),
         "correspondence_divergences": len(div),
@@ -430,7 +558,8 @@ def run(ctx):
         "samples": [pick("au", lambda r: r[2].startswith("err")), pick("au", lambda r: r[2].startswith("ok") and ";" in r[1]),
                     pick("mp", lambda r: r[3] == "exec" and r[8] != "-"), pick("mp", lambda r: r[3] == "copy-temp"),
                     pick("tr", lambda r: " null" in r[1]), pick("ws", lambda r: r[1].endswith(" null")), pick("wl", lambda r: " dup " in r[1] and len(r[1]) > 300),
-                    pick("hs", lambda r: r[3].startswith("apq ")), pick("hs", lambda r: r[3].startswith("rand-"))],
-        "sampled_not_proved": ["HTTP/websocket framing of the answers (well-formed JSON / SSE / multipart-mixed / ws frames)", "exact bytes, filename, content type per mapped path and independent seeks (observed in user code on every successful upload)", "every non-subscribe websocket frame",
+                    pick("hs", lambda r: r[3].startswith("apq ")), pick("hs", lambda r: r[3].startswith("rand-")),
+                    pick("rs", lambda r: "to=16" in r[12] or "to=11" in r[12]), pick("rs", lambda r: r[12].startswith("disk interleaved")), pick("wc", lambda r: " dup 6 " in r[1])],
+        "sampled_not_proved": ["HTTP/websocket framing of the answers (well-formed JSON / SSE / multipart-mixed / ws frames)", "exact bytes, filename, content type per mapped path and independent seeks (observed in user code on every successful upload)", "every non-subscribe websocket frame", "interleavings of a server-initiated close with frame writes of running subscriptions (scheduler-dependent sessions)",
                                "request histories: byte equality of every answer with the twin without query cache, recover-hook counter, validated-document check in Exec (observed on the generated and directed histories)"],
     })
